@@ -23,6 +23,8 @@ func main() {
 		os.Exit(cmdCheck(os.Args[2:]))
 	case "replay":
 		os.Exit(cmdReplay(os.Args[2:]))
+	case "writers":
+		os.Exit(cmdWriters(os.Args[2:]))
 	case "why":
 		os.Exit(cmdWhy(os.Args[2:]))
 	case "selftest":
